@@ -211,7 +211,7 @@ func cmdCheck(args []string) int {
 			timeout = time.Duration(n) * time.Second
 		}
 	}
-	scratch, err := os.MkdirTemp("", "govc-"+*prop+"-")
+	scratch, err := os.MkdirTemp("", ".vc-"+*prop+"-")
 	if err != nil {
 		fmt.Fprintln(os.Stderr, "infrastructure error:", err)
 		return 2
@@ -410,6 +410,10 @@ func cmdCheck(args []string) int {
 					name = name[:120]
 				}
 				r := runPortfolio(script, scratch, name, to, seed, *tier == "thorough" && !j.o.Cover)
+			if r.result == "error" || strings.Contains(r.raw, "no such file") {
+				// scratch files vanished under the solvers (external clean-up): once more, the directory is re-created
+				r = runPortfolio(script, scratch, name+"_again", to, seed, *tier == "thorough" && !j.o.Cover)
+			}
 				if !j.o.Cover && r.result != "sat" && r.result != "unsat" {
 					// second chance: an undecided (timeout / unknown) proof obligation is retried once, alone, with twice the
 					// time and another seed — a machine loaded by other processes must not turn a 1-second proof into an alarm
